@@ -67,6 +67,7 @@ type Node struct {
 	lndPending []inMsg
 	Recovered bool
 	LastHeight map[string]uint32 // last height served per chain
+	servedLog  map[string][]servedAt
 	heightByTask map[string]uint32
 	lastQuery    map[string]time.Duration
 	ext          nodeExtra // extension fields (see node_ext.go)
